@@ -58,6 +58,20 @@ class Plan:
         self.note = note
 
 
+class _Gone:
+    """model stand-in for a node that is no longer part of the tree"""
+
+    children = ()
+    parent = None
+    data_id = object()
+
+    def __repr__(self):
+        return "<node that left the tree>"
+
+
+GONE = _Gone()
+
+
 class Outcome:
     __slots__ = ("op", "plan", "raised", "retval", "events", "state_changed", "expected_gone")
 
@@ -253,6 +267,14 @@ class Engine:
             if n is None:
                 return None, None
             return n, self.real(n)
+        if kind == "g":
+            # a node that was part of the tree earlier and has left it (removed, filtered out, cleared): the caller
+            # still holds the reference.  For the model it is simply "not a child of the target".
+            alive = {id(r) for r in self.real_of.values()}
+            gone = [node for node, _nid in self.ever.values() if id(node) not in alive]
+            if not gone:
+                return None, None
+            return GONE, gone[k % len(gone)]
         raise AssertionError(before)
 
     def new_data(self, label, opts):
